@@ -98,7 +98,11 @@ def f32_model(x):
         tot += abs(co) * max(abs(b[0]), abs(b[1]))
     if tot > 1e30:
         raise Escape('symx: symbolic value may overflow float32')
-    e = cx.real(cx.fresh('f32e'), -U32, U32)
+    ename = cx.fresh('f32e')
+    e = cx.real(ename, -U32, U32)
+    # registered as an atom: the translator validation (which evaluates path conditions at concrete points) skips
+    # paths that hold internal variables it has no value for
+    cx.atoms[('f32', ename)] = e
     r = x * (1 + e)
     # rounding is monotone and exact on representable numbers: for the float32 constants c the harness names
     # (monotone_at), x <= c => fl(x) <= c and x >= c => fl(x) >= c are TRUE facts added to the path
